@@ -198,6 +198,19 @@ def pure_move(ctx: Ctx):
             short_i, short = i, s
     if init_i is None or short is None or short_i < init_i:
         raise AnalysisError("PURE-MOVE: parafac's all-fixed shortcut (if fixed_modes == list(range(ndim)): return ...) vanished")
+    # the test must see the caller's selection: before it, `fixed_modes` may only be defaulted (None -> [])
+    # or copied, not filtered (the later code strips the last mode, after which "every mode" cannot match)
+    fixed_name = next((n for n in names_in(short.test) if n in f.all_params and "fixed" in n), "fixed_modes")
+    for s_ in body[:short_i]:
+        for n_ in ast.walk(s_):
+            if isinstance(n_, ast.Assign) and any(is_name(t, fixed_name) for t in n_.targets):
+                v_ = n_.value
+                harmless = (isinstance(v_, ast.List) and not v_.elts) or (isinstance(v_, ast.Call) and callee_name(v_) in ("list", "sorted", "tuple") and len(v_.args) == 1 and is_name(v_.args[0], fixed_name))
+                res.instance("PURE-MOVE", f"parafac: `{src(n_)[:60]}` before the all-fixed test", sample={"harmless": harmless})
+                if not harmless:
+                    ctx.finding("PURE-MOVE", f, n_, f"`{src(n_)[:80]}` re-binds `{fixed_name}` before the all-fixed shortcut `if {src(short.test)[:50]}` reads it: with the last mode already stripped the test can never hold, so fixing every mode no longer returns the initialisation unchanged (the last factor is updated)", construct=f"parafac: {fixed_name} filtered before the all-fixed test")
+            elif isinstance(n_, ast.Call) and isinstance(n_.func, ast.Attribute) and is_name(n_.func.value, fixed_name) and n_.func.attr in ("remove", "pop", "clear", "append", "extend"):
+                ctx.finding("PURE-MOVE", f, n_, f"`{src(n_)[:80]}` edits `{fixed_name}` before the all-fixed shortcut reads it", construct=f"parafac: {fixed_name} edited before the all-fixed test")
     between = body[init_i + 1 : short_i]
     written = set()
     for s in between:
